@@ -45,7 +45,20 @@ def correspond(ctx, name, cases_text, precond="ruiz", backends=("dense",), timeo
             ctx.ob(obn, "correspondence", False, "harness build: " + msg1); res[b] = (False, [], {}); continue
         rc1, o1 = vlib.run_bin_chunked(impl, cases_text, ctx.work, name + "_" + b, timeout=timeout)
         if rc1 != 0:
-            ctx.ob(obn, "correspondence", False, "driver failed rc=%d: %s" % (rc1, o1[-600:])); res[b] = (False, [], vlib.parse_obs(o1)); continue
+            ctx.ob(obn, "correspondence", False, "driver failed rc=%d: %s" % (rc1, o1[-600:]))
+            # localise: run the cases one by one and report the first one the real code crashes / aborts / hangs on
+            singles = vlib.split_cases(cases_text, 10 ** 9)
+            bad = None
+            for k, one in enumerate(singles[:400]):
+                f1 = os.path.join(ctx.work, "%s_%s_single.cases" % (name, b)); open(f1, "w").write(one)
+                r1, oo = vlib.run_bin(impl, f1, timeout=120)
+                if r1 != 0: bad = (one, r1, oo); break
+            if bad:
+                cname = bad[0].split()[1] if bad[0].split() else "?"
+                ctx.violation("crash backend=%s precond=%s rc=%d" % (b, precond, bad[1]),
+                              "the implementation (exact scalar build) aborts on case %s: %s" % (cname, bad[2][-500:]),
+                              {"case": bad[0], "backend": b, "precond": precond, "rc": bad[1], "stderr_tail": bad[2][-1500:]})
+            res[b] = (False, [], vlib.parse_obs(o1)); continue
         a = vlib.parse_obs(o1)
         sk = (skip or {}).get(b, set())
         mref = mobs if b == "dense" else mobs_sparse
